@@ -101,6 +101,22 @@ func init() {
 		c.ret(st, KBool(e.cvIndex(cv, string([]byte{byte(r.I.Int64())})) >= 0))
 		return true
 	})
+	// REALNET=1 (harness parameter): net.ParseIP, net.ParseCIDR and net.IP.String are not modelled; their
+	// real bodies (net, net/netip) are executed. Meant for character-vector strings.
+	for _, name := range []string{"net.ParseIP", "net.ParseCIDR", "(net.IP).String"} {
+		name := name
+		old := intrinsics[name]
+		if old == nil {
+			panic("zz_cvwire: no intrinsic " + name)
+		}
+		intrinsics[name] = func(e *Engine, st *State, c *callCtx) bool {
+			if e.cfg.Params["REALNET"] == 1 {
+				c.declined = true
+				return true
+			}
+			return old(e, st, c)
+		}
+	}
 	wrap("net.JoinHostPort", func(e *Engine, st *State, c *callCtx) bool {
 		ht, ok := c.args[0].(*Term)
 		pt, ok2 := c.args[1].(*Term)
@@ -360,6 +376,22 @@ func init() {
 		}
 		st.heap[p.Obj] = &Obj{V: ScanVal{Rest: cvTerm(rest), Tok: cvTerm(line), Reader: sv.Reader}}
 		c.ret(st, tTrue)
+		return true
+	})
+}
+
+func init() {
+	// unique.Make for net/netip's address detail: one handle object per distinct (described) value
+	reg("unique.Make[net/netip.addrDetail]", func(e *Engine, st *State, c *callCtx) bool {
+		v := c.args[0]
+		key := "unique:" + describe(v)
+		p, ok := st.side[key].(PtrVal)
+		if !ok {
+			p = PtrVal{Obj: st.newObj(v, nil)}
+			st.side[key] = p
+		}
+		e.res.Assumptions["unique.Make(netip.addrDetail): handles are equal iff the values are syntactically equal (zones are rejected by net.ParseIP/ParseCIDR anyway)"]++
+		c.ret(st, StructVal{F: []Value{p}})
 		return true
 	})
 }
